@@ -31,7 +31,9 @@ MIX = ["aa", "Bb.", "a", "cccccccccc",
        "-", "1.", "#", ">", ">x", "=", "---", "***", "```", "|", "[x]:", "\\-", "1\\.", "\\",
        "`c d`", "[l k](u)", "[l][r]", "<http://u>", "www.u.v", "<b>", "*e", "f*", "**s**", "~~d~~", "&amp;",
        "'", '"', "it's", '"q', 'q"', "...", "a...b", "....", "…",
-       "{% t %}", "{% /t %}", "{{ v }}", "<!-- c -->", "{% t %}{% /t %}", '{% t a="x y" %}']
+       "{% t %}", "{% /t %}", "{{ v }}", "<!-- c -->", "{% t %}{% /t %}", '{% t a="x y" %}',
+       # appended later: runs that look like the delimiter row of a table (escaped by the wrapper AFTER the width check)
+       "| - | - |", "|-|"]
 MIX_REPS = [MIX.index(t) for t in ("aa", "Bb.", "-", "#", "=", "`c d`", "[l k](u)", "*e", "f*", '"q', 'q"', "...", "{% t %}",
                                    "{% /t %}", "<!-- c -->")]
 
@@ -152,6 +154,9 @@ def _class_reps():
     quote = MIX.index("'")
     for t in ('"', "it's", '"q', 'q"'):
         rep[MIX.index(t)] = quote
+    pipe = MIX.index("|")
+    for t in ("| - | - |", "|-|"):
+        rep[MIX.index(t)] = pipe
     code = MIX.index("`c d`")
     for t in ("[l k](u)", "[l][r]", "<http://u>", "www.u.v", "<b>", "**s**", "~~d~~"):
         rep[MIX.index(t)] = code
